@@ -377,7 +377,7 @@ def task_wide(t):
     pairs = [(a, b) for a in subs for b in subs]
     mine = sweep.shard(pairs, ns)[si]
     for k, (A, B) in enumerate(mine):
-        if focus is not None and [list(A), list(B)] != list(focus):
+        if focus is not None and sweep.norm([A, B]) != sweep.norm(focus):
             continue
         na = tuple(decl[i] for i in A)
         nb = tuple(decl[i] for i in B)
